@@ -17,7 +17,9 @@
                                 "no reply to client"; ClientOnly: "an internal sub-query isn't denied by a source-IP rule"
      sdns.conf emptyzones       "Empty zones (AS112 - RFC 7534): prevents queries for private IP reverse zones from leaking";
                                 views.go: views come first "so an admin-curated answer for a specific client always wins"
-     doc.go / gen.go            accesslist ... views, blocklist, as112 ... cache.  views stands ahead of the cache: a view answer short-circuits the chain, so it never reaches
+     sdns.conf chaos            "CHAOS query responses.  Responds to: version.bind, version.server, hostname.bind, id.server";
+                                chaos = true | false
+     doc.go / gen.go            accesslist ... chaos ... views, blocklist, as112 ... cache.  views stands ahead of the cache: a view answer short-circuits the chain, so it never reaches
                                 the cache below; what falls through is answered (and cached) by the rest of the chain.
 
    One action: Query(c, n, t, internal).  State: the configuration in force (chosen at Init), the cache behind the views
@@ -33,6 +35,9 @@ CONSTANTS Clients,      \* abstract client addresses
           Configs,      \* function: config id -> sequence of views [nets: set of nets, recs: set of [o, t, d]]
           Acl,          \* function: config id -> set of nets the access list allows ({} = the open default)
           EmptyZones,   \* the AS112 empty zones (names) of the universe
+          ChaosNames,   \* the names of the universe that are asked in class CH (all others in class IN)
+          ChaosKnown,   \* those of them the chaos responder knows
+          ChaosOn,      \* function: config id -> BOOLEAN (chaos = true | false)
           Names,        \* query names, sequences of labels
           Types,
           MaxCache,
@@ -114,6 +119,8 @@ Cached(ca, n, t) == {e \in ca : e.k = <<n, t>>}
 Allowed(k, c, int) ==
     IF int THEN Mut # "aclint" \/ Acl[k] = {}          \* the mutant judges the internal writer's address: in no list
     ELSE Mut = "aclopen" \/ Acl[k] = {} \/ \E nt \in Acl[k] : InNet(c, nt)
+ChaosAnswers(k, n, t) == /\ n \in ChaosKnown /\ t = "TXT" /\ Mut # "chaosdead"
+                         /\ (ChaosOn[k] \/ Mut = "chaoson")
 Empty(n) == IF Mut = "emptyoff" THEN "no"
             ELSE IF Mut = "emptyapex" /\ DocEmpty(n) = "apex" THEN "below" ELSE DocEmpty(n)
 
@@ -121,7 +128,13 @@ Empty(n) == IF Mut = "emptyoff" THEN "no"
 Outcome(k, ca, c, n, t, int) ==
     LET v   == IF int /\ Mut # "internal" THEN 0 ELSE Pick(k, c, n, t)
         ans == IF v = 0 THEN {} ELSE Answer(Configs[k][v], n, t)
-    IN IF ~Allowed(k, c, int) /\ ~(Mut = "aclafter" /\ ans # {}) THEN [kind |-> "drop", view |-> 0, rrs |-> {}]
+    IN IF /\ ~Allowed(k, c, int) /\ ~(Mut = "aclafter" /\ ans # {})
+          /\ ~(Mut = "chaosacl" /\ n \in ChaosNames /\ ChaosAnswers(k, n, t)) THEN [kind |-> "drop", view |-> 0, rrs |-> {}]
+       \* class CH: the chaos responder answers what it knows; everything else in that class runs down the chain (no view
+       \* or empty zone of the universe covers these names) and is whatever the rest of the chain makes of it
+       ELSE IF n \in ChaosNames
+            THEN IF ChaosAnswers(k, n, t) THEN [kind |-> "chaos", view |-> 0, rrs |-> {"chaos"}]
+                 ELSE [kind |-> "chpass", view |-> 0, rrs |-> {}]
        ELSE IF Mut = "emptyfirst" /\ Empty(n) # "no" THEN [kind |-> "empty", view |-> 0, rrs |-> {Empty(n)}]
        ELSE IF ans # {} THEN [kind |-> "view", view |-> v, rrs |-> ans]
        ELSE IF v # 0 /\ Mut = "stop" THEN [kind |-> "nodata", view |-> v, rrs |-> {}]
@@ -161,10 +174,10 @@ ViewOnlyOwn == AllQ(LAMBDA c, n, t, int, o :
                        /\ o.rrs \subseteq Data(Configs[cfg][o.view].recs))
 \* a client outside every view never sees view data (not from the handler, not from the cache behind it)
 OutsideNeverSeesView == AllQ(LAMBDA c, n, t, int, o :
-    DocFirst(cfg, c) = 0 => o.kind \in {"pass", "cached", "drop", "empty"} /\ (o.kind \in {"pass", "cached"} => o.rrs = DOWN))
+    DocFirst(cfg, c) = 0 => o.kind \in {"pass", "cached", "drop", "empty", "chaos", "chpass"} /\ (o.kind \in {"pass", "cached"} => o.rrs = DOWN))
 \* internal sub-queries skip views entirely
 InternalBypass == AllQ(LAMBDA c, n, t, int, o :
-    int => o.kind \in {"pass", "cached", "drop", "empty"} /\ (o.kind \in {"pass", "cached"} => o.rrs = DOWN))
+    int => o.kind \in {"pass", "cached", "drop", "empty", "chaos", "chpass"} /\ (o.kind \in {"pass", "cached"} => o.rrs = DOWN))
 \* declaration order: the first view containing the client
 FirstMatch == AllQ(LAMBDA c, n, t, int, o : o.kind = "view" => o.view = DocFirst(cfg, c))
 \* the first view is not left again: no record there = the request falls through (a later view is not consulted)
@@ -173,7 +186,7 @@ FirstViewOnly == AllQ(LAMBDA c, n, t, int, o :
 \* ... and falls through: the rest of the chain answers
 FallThrough == AllQ(LAMBDA c, n, t, int, o :
     ~int /\ DocFirst(cfg, c) # 0 /\ DocAnswer(Configs[cfg][DocFirst(cfg, c)], n, t) = {}
-        => o.kind \in {"pass", "cached", "view", "drop", "empty"} /\ (o.kind \in {"pass", "cached"} => o.rrs = DOWN))
+        => o.kind \in {"pass", "cached", "view", "drop", "empty", "chaos", "chpass"} /\ (o.kind \in {"pass", "cached"} => o.rrs = DOWN))
 \* a client inside a view gets that view's matching answer
 ViewAnswers == AllQ(LAMBDA c, n, t, int, o :
     ~int /\ DocAllowed(cfg, c) /\ DocFirst(cfg, c) # 0 /\ DocAnswer(Configs[cfg][DocFirst(cfg, c)], n, t) # {} => o.kind = "view")
@@ -197,10 +210,14 @@ InternalNoAcl == AllQ(LAMBDA c, n, t, int, o : int => o.kind # "drop")
 \* empty zones: what no view answers for the client is answered locally, never by the rest of the chain (no leak, not cached)
 EmptyLocal == AllQ(LAMBDA c, n, t, int, o :
     DocEmpty(n) # "no" => o.kind \in {"empty", "view", "drop"} /\ (o.kind = "empty" => o.rrs = {DocEmpty(n)}))
+\* chaos = false: the responder is silent; chaos = true: every allowed client is told (inside a view or not)
+ChaosSwitch == AllQ(LAMBDA c, n, t, int, o : ~ChaosOn[cfg] => o.kind # "chaos")
+ChaosResponds == AllQ(LAMBDA c, n, t, int, o :
+    ~int /\ DocAllowed(cfg, c) /\ ChaosOn[cfg] /\ n \in ChaosKnown /\ t = "TXT" => o.kind = "chaos")
 \* a view answer stops the chain: the cache behind the views holds downstream data only
 CacheClean == \A e \in cache : e.rrs = DOWN
 
 TypeInv == /\ cfg \in DOMAIN Configs
            /\ Cardinality(cache) <= MaxCache
-           /\ last.kind \in {"none", "view", "pass", "cached", "nodata", "drop", "empty"}
+           /\ last.kind \in {"none", "view", "pass", "cached", "nodata", "drop", "empty", "chaos", "chpass"}
 =============================================================================
